@@ -26,7 +26,7 @@ impl AccessPolicy {
     /// given as a string.
     fn find_matching_closing_parenthesis(boolean_expression: &str) -> Result<usize, Error> {
         let mut count = 0;
-        for (index, c) in boolean_expression.chars().enumerate() {
+        for (index, c) in boolean_expression.char_indices() {
             match c {
                 '(' => count += 1,
                 ')' => count -= 1,
@@ -105,7 +105,10 @@ impl AccessPolicy {
             } else if e == "*" {
                 return Ok(Self::conjugate(Self::Broadcast, q.into_iter()));
             } else {
-                match &e[..1] {
+                // Slice on the first character boundary: `e` may start with a
+                // multi-byte character.
+                let first_len = e.chars().next().map_or(0, char::len_utf8);
+                match &e[..first_len] {
                     "(" => {
                         let offset = Self::find_matching_closing_parenthesis(&e[1..])?;
                         q.push_back(Self::parse(&e[1..1 + offset]).map_err(|err| {
@@ -116,7 +119,7 @@ impl AccessPolicy {
                         e = &e[2 + offset..];
                     }
                     "|" => {
-                        if e[1..].is_empty() || &e[1..2] != "|" {
+                        if !e[1..].starts_with('|') {
                             return Err(Error::InvalidBooleanExpression(format!(
                                 "invalid separator in: '{e}'"
                             )));
@@ -128,7 +131,7 @@ impl AccessPolicy {
                         return Ok(lhs | Self::parse(&e[2..])?);
                     }
                     "&" => {
-                        if e[1..].is_empty() || &e[1..2] != "&" {
+                        if !e[1..].starts_with('&') {
                             return Err(Error::InvalidBooleanExpression(format!(
                                 "invalid leading separator in: '{e}'"
                             )));
